@@ -30,6 +30,9 @@ PROPS = {
     "C14": dict(harness="bt", trusted=BT_TRUST, assumptions=["server clock and sample coins are inputs"]),
     "C16": dict(harness="bt", trusted=BT_TRUST, assumptions=["server clock and sample coins are inputs"]),
     "C17": dict(harness="bt", trusted=BT_TRUST, assumptions=["server clock and sample coins are inputs"]),
+    "C19": dict(harness="lock", trusted=["Go channel and sync.Mutex semantics are the model's rules by construction (a blocked sender is woken when the slot frees; select picks any ready case)"],
+                assumptions=["blocking in the select is observed through the runtime's goroutine wait state", "the runtime's choice at a both-ready select is sampled, not forced"],
+                oracle_codes={1: "two holders of one key", 2: "map entry left at quiescence", 3: "Lock returned false without a cancellation", 4: "the holder's own Unlock panicked", 5: "Unlock of a never-held key returned normally"}),
 }
 
 
@@ -93,6 +96,8 @@ TEXT = {
              level="Theorems over all histories of the handler model with the store clock as a strictly increasing counter: every content write gets a generation above everything handed out before and metageneration 1; a patch bumps only metageneration; reads and failures change nothing." + _CORR, note=_NOTE + " Assumes the stores' wall clock strictly increases between successive writes."),
  "C11": dict(technique="Coq proof (pagination complete/duplicate-free/sorted for the memory store without delimiter; early-exit soundness) + exhaustive enumeration of name-universe subsets x prefixes x delimiters x page sizes with a whole-pagination oracle, both stores",
              level="Theorems about the listing walk: with an ascending walk order the prefix abort and cursor skip lose nothing, a page is the first maxResults matching names, and following tokens yields every matching name exactly once in order (memory store, no delimiter). Delimiter pagination (GCS-1) and the file store's walk order (GCS-2) are refuted by witnesses and recorded as findings; the oracle still checks every complete pagination against the API semantics." + _CORR, note=_NOTE),
+ "C19": dict(technique="Coq invariant proof over an executable small-step model (any number of goroutines, keys, steps, cancellations) + step-by-step correspondence through yield hooks, exhaustive for 2 goroutines x 1 key",
+             level="Theorems for every reachable state of the step model of TransientLockMap/countedLock (any number of threads and keys, any schedule, any cancellations): the inductive invariant, mutual exclusion, Lock returns true iff it acquired, a cancelled Lock holds nothing and changes no channel, no lost wake-up, independence of keys, Unlock of an unheld key panics with the state unchanged, no leak at quiescence, no deadlock. Correspondence: real goroutines are stepped through yield points at each internal step; outcome class and map size after every action are compared with the model (either select choice accepted where both are ready) and with a model-independent oracle." + _CORR, note=_NOTE + " Go channel/mutex semantics are the model's rules; the runtime's select choice is sampled."),
  "C12": dict(technique="Coq proof (branch selection of CheckAndMutateRow vs filter semantics) + differential correspondence, 3 engines",
              level="Theorems about the CheckAndMutateRow model: predicate_matched iff the predicate filter yields a cell on the current row, exactly the selected mutation list is applied with MutateRow semantics, errors leave the row unchanged." + _CORR, note=_NOTE),
  "C13": dict(technique="Coq proof (big-endian codec round trip, rule fold vs spec, wrap-around) + differential correspondence, 3 engines",
